@@ -75,6 +75,7 @@ class RunResult(object):
         self.fired = {}          # fault kind -> times it actually fired
         self.probes = {}         # rare-branch probe -> hits
         self.signature = ''      # shape of the run (for distinct counting)
+        self.sigs = set()        # or: several case signatures per run (op-level cases)
         self.nontrivial = False  # >=1 fault fired / pre-emption happened / ...
         self.sim_time = 0.0      # simulated seconds covered
         self.steps = 0           # ops / yield points executed
